@@ -26,6 +26,8 @@ def h64(s):
 def main():
     modname = sys.argv[1]
     out = sys.stdout
+    from vf import tmpclean
+    tmpclean.install()
     cov = None
     if os.environ.get("VERIF_COV"):
         # blind-spot analysis (development aid, not part of any verdict): line coverage of the code under test
@@ -114,6 +116,7 @@ def main():
             resp["smt"] = dump[:req.get("smt_dump")]
         out.write(json.dumps(resp, default=str) + "\n")
         out.flush()
+        tmpclean.sweep()
     if cov is not None:
         cov.stop()
         cov.save()
